@@ -19,7 +19,7 @@ def sh(cmd, cwd=None, env=None, timeout=3600):
 
 def do_import(src, prop):
     name = os.path.basename(src.rstrip('/'))
-    mid = '%s_%s' % (prop, name)
+    mid = name if name.startswith(prop + '_') else '%s_%s' % (prop, name)
     dst = os.path.join(SEEDED, mid)
     os.makedirs(dst, exist_ok=True)
     for f in os.listdir(src):
